@@ -419,11 +419,11 @@ func (b Bars) Valid() bool {
 
 // VeryLong returns, rarely, an input length just around 2^14, 2^15 or 2^16 (else 0): for the
 // properties whose own length generators stay near the warm-up. About one draw in 7000 (one in
-// 250 in the thorough tier).
+// 750 in the thorough tier).
 func VeryLong(t *rapid.T) int {
 	rate, hit := 2999, 1517
 	if engine.Thorough() {
-		rate, hit = 99, 57
+		rate, hit = 299, 157
 	}
 	if rapid.IntRange(0, rate).Draw(t, "very_long_input") != hit {
 		return 0
@@ -443,12 +443,12 @@ func GenLen(t *rapid.T, w int, tail int) int {
 		rate, hit = 49, 23
 	}
 	if rapid.IntRange(0, rate).Draw(t, "long_input") == hit {
-		// mostly 2^8 .. 2^13; one long input in four goes on to 2^14 .. 2^16 (the sizes at which
+		// mostly 2^8 .. 2^13; some long inputs go on to 2^14 .. 2^16 (the sizes at which
 		// 16-bit counters wrap and "refresh every 65536 values" safeguards fire)
 		e := rapid.IntRange(8, 13).Draw(t, "len_log2")
 		big, bigHit := 29, 13 // quick tier: a few dozen such inputs per run
 		if engine.Thorough() {
-			big, bigHit = 3, 2
+			big, bigHit = 15, 7
 		}
 		if rapid.IntRange(0, big).Draw(t, "very_long") == bigHit {
 			e = rapid.IntRange(14, 16).Draw(t, "len_log2_big")
